@@ -55,6 +55,9 @@ type FnCtx struct {
 	ghostVals map[string]*Val
 	notes     []string
 	inlined   map[string]bool
+	guardOrd  map[string]map[ssa.Instruction]int
+	unlockSnap *State
+	lockSnap  *State // state right after the most recent lock acquisition (at_lock)
 	preEnv    *Env // contract environment at function entry (replay)
 	postEnv   *Env // contract environment at the merged exit (replay)
 }
@@ -378,6 +381,11 @@ func (c *FnCtx) loadAddr(st *State, a *Addr, t types.Type) *Val {
 		v = h.loadDeref(a.Ref, t)
 	case AField:
 		v = h.loadField(a.Ref, a.ET, a.Idx)
+		if g := c.fieldGuard(a); g != nil {
+			nv := *v
+			nv.Guard = g
+			v = &nv
+		}
 	case AElem:
 		v = h.loadElem(a.Ref, a.IdxT, a.ET)
 	case AGlobal:
